@@ -480,25 +480,55 @@ func runCPU() {
 			}
 		}
 	}
-	// pending interrupts (NMI / IRQ latched before the Step): outside the Lean model (which has the latch idle), so Go-only
-	// oracles: no crash, lockstep of the two packages, and the cycle bookkeeping of C12 on the Step that services the interrupt
-	nInt := 600
+	// pending interrupts (NMI / IRQ latched before the Step): model Cpu.stepFull, plus Go-side oracles: no crash, lockstep of the
+	// two packages, and the cycle bookkeeping of C12 on the Step that services the interrupt
+	nInt := 3000
 	if tier == "thorough" {
-		nInt = 30000
+		nInt = 60000
 	}
 	ri := prng.New(seed ^ 0x1a7)
+	type intCase struct {
+		c     cpuCase
+		latch int
+	}
+	var icases []intCase
 	for k := 0; k < nInt; k++ {
 		c := genCPUCase(ri.Fork(), -1, k%3 != 0)
 		c.steps = 2
-		kind := 2 + k%2 // interruptNMI, interruptIRQ
+		// interruptNMI, interruptIRQ, and (rarely) the idle / zero / out-of-range latch values that must fall through
+		latch := []int{2, 3, 2, 3, 2, 3, 2, 3, 0, 1, 4, 0xFF}[k%12]
+		if k%5 == 0 {
+			// stack at the boundaries: the pushes of the entry sequence wrap
+			c.regs.SP = []uint16{0x0000, 0x0001, 0x0002, 0x0100, 0x01FF, 0xFFFF}[ri.N(6)]
+		}
+		icases = append(icases, intCase{c, latch})
+	}
+	var ireplies []string
+	if d != nil && err == nil {
+		reqs := make([]string, len(icases))
+		for i, ic := range icases {
+			reqs[i] = fmt.Sprintf("cpui p %x %x %s %x %s", ic.latch, ic.c.steps, ic.c.regs.Canon(), ic.c.seed, ovlString(ic.c.ovl))
+		}
+		var e2 error
+		ireplies, e2 = d.Batch(reqs)
+		if e2 != nil {
+			ireplies = nil
+			for _, p := range modelProps {
+				rep.Add(report.Finding{Property: p, Kind: "disagreement", Clause: "model driver failed on the interrupt cases", Detail: e2.Error()})
+			}
+		}
+	}
+	for k, ic := range icases {
+		c, kind := ic.c, ic.latch
 		type res struct {
-			state   string
-			cyc     int
-			stop    bool
-			pn      string
-			all0    uint64
-			all1    uint64
-			cycReg  uint8
+			state  string
+			cyc    int
+			stop   bool
+			pn     string
+			all0   uint64
+			all1   uint64
+			cycReg uint8
+			latch  byte
 		}
 		runI := func(variant string) (out []res) {
 			mem := cpuh.NewMem(c.seed)
@@ -507,22 +537,25 @@ func runCPU() {
 			}
 			var step func() (int, bool, string)
 			var get func() cpuh.Regs
+			var latch func() byte
 			if variant == "p" {
 				p := cpuh.NewPrimary(mem)
 				p.Set(c.regs)
 				p.CPU.Interrupt = byte(kind)
 				step, get = p.Step, p.Get
+				latch = func() byte { return p.CPU.Interrupt }
 			} else {
 				p := cpuh.NewAlt(mem)
 				p.Set(c.regs)
 				p.CPU.Interrupt = byte(kind)
 				step, get = p.Step, p.Get
+				latch = func() byte { return p.CPU.Interrupt }
 			}
 			for i := 0; i < c.steps; i++ {
 				before := get().AllCycles
 				cy, st, pn := step()
 				g := get()
-				out = append(out, res{g.Canon() + "|" + mem.WritesCanon(), cy, st, pn, before, g.AllCycles, g.Cycles})
+				out = append(out, res{g.Canon() + "|" + mem.WritesCanon(), cy, st, pn, before, g.AllCycles, g.Cycles, latch()})
 				if pn != "" {
 					break
 				}
@@ -530,7 +563,7 @@ func runCPU() {
 			return
 		}
 		po, ao := runI("p"), runI("a")
-		in := fmt.Sprintf("%s interrupt=%d", c.line("p"), kind)
+		in := fmt.Sprintf("cpui p %x %x %s %x %s", kind, c.steps, c.regs.Canon(), c.seed, ovlString(c.ovl))
 		for vi, ob := range [][]res{po, ao} {
 			vname := []string{"primary", "alt"}[vi]
 			for i, o := range ob {
@@ -541,6 +574,11 @@ func runCPU() {
 				if o.cyc < 1 || uint64(o.cyc) != uint64(o.cycReg) || o.all1 != o.all0+uint64(o.cyc) {
 					rep.Add(report.Finding{Property: "C12", Kind: "violation", Clause: fmt.Sprintf("%s: Step %d with a pending interrupt: reported %d cycles, Cycles=%d, AllCycles %d -> %d", vname, i+1, o.cyc, o.cycReg, o.all0, o.all1), Input: in})
 				}
+				if o.latch != 1 {
+					for _, p := range modelProps {
+						rep.Add(report.Finding{Property: p, Kind: "disagreement", Clause: fmt.Sprintf("%s: the interrupt latch is %d after Step (the model takes it to be interruptNone)", vname, o.latch), Input: in})
+					}
+				}
 			}
 		}
 		for i := 0; i < len(po) && i < len(ao); i++ {
@@ -550,8 +588,94 @@ func runCPU() {
 				break
 			}
 		}
+		if ireplies != nil && k < len(ireplies) {
+			ss := make([]string, len(po))
+			for i, o := range po {
+				ss[i] = o.state
+				if o.pn != "" {
+					ss[i] = "crash"
+				}
+			}
+			if got := strings.Join(ss, ";"); ireplies[k] != got {
+				j := firstDiff(strings.Split(ireplies[k], ";"), ss)
+				for _, p := range modelProps {
+					rep.Add(report.Finding{Property: p, Kind: "disagreement", Clause: fmt.Sprintf("Lean Cpu.stepFull vs the primary interpreter with interrupt latch %d (first difference at step %d)", kind, j+1),
+						Input: in, Expected: nth(strings.Split(ireplies[k], ";"), j) + " (model)", Actual: nth(ss, j) + " (go)"})
+				}
+			}
+		}
 		steps += int64(len(po))
-		rep.Count(fmt.Sprintf("interrupt cases kind=%d", kind))
+		rep.Count(fmt.Sprintf("interrupt cases latch=%d", kind))
+	}
+	// Reset(): both packages against the model (vector fetch at $00FFFC with the cross-bank helper, SetFlags($34) incl. the
+	// register-width switch, stop latch cleared)
+	nReset := 1500
+	if tier == "thorough" {
+		nReset = 30000
+	}
+	rr := prng.New(seed ^ 0x2e5e7)
+	var rcases []cpuCase
+	for k := 0; k < nReset; k++ {
+		c := genCPUCase(rr.Fork(), -1, k%3 != 0)
+		c.regs.Stopped = k%2 == 0
+		if k%3 == 0 {
+			c.ovl[0x00FFFC], c.ovl[0x00FFFD] = pick8(rr), pick8(rr)
+		}
+		rcases = append(rcases, c)
+	}
+	var rreplies []string
+	if d != nil && err == nil {
+		reqs := make([]string, len(rcases))
+		for i, c := range rcases {
+			reqs[i] = fmt.Sprintf("cpureset %s %x %s", c.regs.Canon(), c.seed, ovlString(c.ovl))
+		}
+		rreplies, _ = d.Batch(reqs)
+	}
+	for k, c := range rcases {
+		var outs [2]string
+		for vi, variant := range []string{"p", "a"} {
+			mem := cpuh.NewMem(c.seed)
+			for a, v := range c.ovl {
+				mem.Ovl[a] = v
+			}
+			func() {
+				defer func() {
+					if r := recover(); r != nil {
+						outs[vi] = "crash"
+					}
+				}()
+				if variant == "p" {
+					p := cpuh.NewPrimary(mem)
+					p.Set(c.regs)
+					p.CPU.Reset()
+					outs[vi] = p.Get().Canon() + "|" + mem.WritesCanon()
+					if p.CPU.Stopped {
+						rep.Add(report.Finding{Property: "C12", Kind: "violation", Clause: "primary: Reset does not clear the stop condition", Input: c.line("p")})
+					}
+				} else {
+					p := cpuh.NewAlt(mem)
+					p.Set(c.regs)
+					p.CPU.Reset()
+					outs[vi] = p.Get().Canon() + "|" + mem.WritesCanon()
+					if p.CPU.Stopped {
+						rep.Add(report.Finding{Property: "C12", Kind: "violation", Clause: "alt: Reset does not clear the stop condition", Input: c.line("a")})
+					}
+				}
+			}()
+			if outs[vi] == "crash" {
+				rep.Add(report.Finding{Property: "C08", Kind: "violation", Clause: variant + ": Reset panics with the whole bus mapped", Input: c.line(variant)})
+			}
+		}
+		if outs[0] != outs[1] {
+			rep.Add(report.Finding{Property: "C02", Kind: "violation", Clause: "the two interpreters differ after Reset", Input: c.line("p"), Expected: "primary: " + outs[0], Actual: "alt:     " + outs[1]})
+		}
+		if rreplies != nil && k < len(rreplies) && rreplies[k] != outs[0] {
+			for _, p := range []string{"C02", "C08", "C12"} {
+				rep.Add(report.Finding{Property: p, Kind: "disagreement", Clause: "Lean Cpu.reset vs the primary interpreter's Reset", Input: "cpureset " + c.regs.Canon(), Expected: rreplies[k] + " (model)", Actual: outs[0] + " (go)"})
+			}
+		}
+		steps++
+		rep.Count("reset cases")
 	}
 	rep.Evaluations = steps
 	rep.Distinct = int64(len(distinct))
@@ -560,7 +684,7 @@ func runCPU() {
 		"junk or coherent shadow copies), M/X/E/D combinations, boundary operand and pointer bytes; random: programs of 2..15 steps over a seeded 16 MiB image; both real interpreters run every case in lockstep " +
 		"(whole bus mapped) and are compared with each other, with the compiled Lean model, and with oracles for crashes / address range / cycle accounting / stop latch. " +
 		"data-directed second pass: the addresses an instruction reads beyond its own bytes are learnt from a first run and preset with boundary values relative to the registers (equal / off-by-one / complements landing exactly on carry and overflow boundaries / BCD digits); " +
-		"additionally: per EA-group opcode, states steering the effective address exactly onto $FFFFFF / $FFFFFE / one past the top / bank ends (16-bit data straddling the wrap); and Go-only cases with a pending NMI or IRQ (no crash, lockstep, cycle bookkeeping of the servicing Step). " +
+		"additionally: per EA-group opcode, states steering the effective address exactly onto $FFFFFF / $FFFFFE / one past the top / bank ends (16-bit data straddling the wrap); and cases with the interrupt latch set to NMI / IRQ / idle / junk values before the Step (model Cpu.stepFull, lockstep, no crash, cycle bookkeeping of the servicing Step, stack at the wrap boundaries), and Reset() from random states (model Cpu.reset, lockstep, stop latch cleared). " +
 		"evaluations = instructions executed per interpreter; distinct_nontrivial = distinct (opcode or program, M, X, E, D) classes"
 	rep.Emit()
 }
